@@ -18,12 +18,19 @@ theorem ecdsa_s2c_verify_commit_sites : Facts.ecdsa_s2c_verify_commit = [
     ⟨.scalar_set_b32, 1, false, none⟩
   ] := by decide
 
-def all : List CallFact := Facts.ecdsa_s2c_verify_commit
+/-- `secp256k1_ecdsa_anti_exfil_signer_commit`: its fallible-primitive call sites are exactly these, each with its result / overflow flag
+    consumed as listed. -/
+theorem ecdsa_anti_exfil_signer_commit_sites : Facts.ecdsa_anti_exfil_signer_commit = [
+    ⟨.ecmult_gen_context_is_built, 1, true, none⟩,
+    ⟨.scalar_set_b32_seckey, 1, true, none⟩
+  ] := by decide
+
+def all : List CallFact := Facts.ecdsa_s2c_verify_commit ++ Facts.ecdsa_anti_exfil_signer_commit
 
 /-- No overflow flag written by a scalar decoding in these functions is ignored (overwritten or never read). -/
 theorem no_flag_dropped : ∀ f ∈ all, f.flag ≠ some false := by decide
 
 /-- non-vacuity: the regenerated fact lists are not empty -/
-example : all.length = 2 := by decide
+example : all.length = 4 := by decide
 
 end SecpZkp.Props.C15_guards
